@@ -22,8 +22,9 @@ RULES = {
     'R10': 'stored filters are replayed in the order they were set (the last tag filter that selects a call site decides its tag, whether it is applied when it is set or replayed for a call site seen later or after a tag filter was cleared): _log_filter_store appends at the tail and every walk over the tag filter list goes forward (or both are the other way round)',
     'R11': 'the bound of the delivery loops covers every slot: the scan that stores conf_active_max looks at every target slot up to the last one (QB_LOG_TARGET_MAX - 1), so that an enabled target in the last slot is delivered to',
     'R7': 'names are compared whole: the matcher makes no bounded copy of a filter alternative; the dynamic call-site lookup compares the function name wherever it compares the file name',
+    'R12': 'the re-entrancy latch is given back: in qb_log_real_va_ every return after the latch (in_logger) was taken passes the store that clears it - a return that leaves it set makes every later log call of the process return at once, for every target (the one exception, named in the rule: the return taken when the line buffer cannot be allocated; DESIGN 8.4)',
 }
-FLOORS = {'R1': 6, 'R2': 4, 'R3': 9, 'R4': 10, 'R5': 7, 'W1': 1, 'R6': 5, 'R7': 3, 'R8': 3, 'R9': 5, 'R10': 3, 'R11': 1}
+FLOORS = {'R12': 1, 'R1': 6, 'R2': 4, 'R3': 9, 'R4': 10, 'R5': 7, 'W1': 1, 'R6': 5, 'R7': 3, 'R8': 3, 'R9': 5, 'R10': 3, 'R11': 1}
 
 
 def run(ctx):
@@ -42,6 +43,7 @@ def run(ctx):
     r_linezero(ctx)
     r_msgid(ctx)
     w1(ctx)
+    r12(ctx)
 
 
 def _loop_over(f, ev, field_or_var):
@@ -565,6 +567,23 @@ def r7(ctx):
               'file/function alternatives are compared in place',
               'a filter alternative is copied into a fixed-size buffer (%s) before it is compared: a name longer than the buffer never matches its own filter and a name equal to '
               'the cut prefix matches wrongly' % (arrs[0].d.get('ty') if arrs else ''))
+    # a file / function alternative selects the call site whose name IS the alternative: a comparison of the first n characters only
+    # is made under a test that the name is n characters long
+    for ev in f.calls('strncmp'):
+        names = [a for a in ev.args[:2] if unwrap(a).get('k') == 'var' or last_field(a)]
+        ln = estr(unwrap(ev.args[2]))
+        whole = False
+        for (at, _e) in f.guards(ev):
+            if at.op != '==':
+                continue
+            for (x, y) in ((at.l, at.r), (at.r, at.l)):
+                if isinstance(x, dict) and isinstance(y, dict) and callee_of(unwrap(x)) == 'strlen' and estr(unwrap(y)) == ln and \
+                        any(estr(unwrap(unwrap(x)['args'][0])) == estr(unwrap(a)) for a in ev.args[:2]):
+                    whole = True
+        ctx.check('R4', 'matcher:alternative-compared-as-a-whole', whole, ev,
+                  'the first %s characters are compared only where the name is %s characters long' % (ln, ln),
+                  'strncmp(%s) is not preceded by a test that the name is exactly %s characters long: the alternative matches every name it is a prefix of '
+                  '(a filter for "send" also selects "sendmsg_retry")' % (', '.join(estr(a) for a in ev.args), ln))
     try:
         d = prog.fn('qb_log_dcs_get')
     except Exception:
@@ -598,6 +617,22 @@ def r7(ctx):
                   'fails the assert on qb_array_index and aborts the process' % estr(ixs))
     if n == 0:
         raise AnalysisBroken('qb_log_dcs_get: no identity comparison on the file name')
+    # ... and by the line, the priority and the format: the filters' priority window is applied to the call site's stored priority
+    def eq_field(at, fld):
+        return at.op == '==' and any(nd.get('k') == 'mem' and nd.get('rec') == 'qb_log_callsite' and nd.get('f') == fld
+                                     for side in (at.l, at.r) if isinstance(side, dict) for nd in walk(side))
+    for fld in ('lineno', 'priority', 'format'):
+        miss = []
+        for ev in d.events():
+            if ev.kind not in ('RETURN', 'STORE'):
+                continue
+            gs = [at for (at, _e) in d.guards(ev)]
+            if any(eq_on(at, 'filename') for at in gs) and not any(eq_field(at, fld) or eq_on(at, fld) for at in gs):
+                miss.append(ev)
+        ctx.check('R7', 'dcs:identity-includes-%s' % fld, not miss, miss[0] if miss else d,
+                  'a dynamic call site is found again only if its %s is the same' % fld,
+                  'a dynamic call site is looked up without comparing the %s: two log calls that differ in it share the first one\'s call site, so the second is '
+                  'routed (priority window, format filters) and printed as if it were the first' % fld)
     ctx.check('R7', 'dcs:identity-includes-function', not bad, '%s:%d (qb_log_dcs_get)' % (d.file, bad[0].term_ln if bad else d.line),
               'a dynamic call site is identified by file, function, line, priority and format',
               'a dynamic call site is looked up without comparing the function name: two log calls that differ in the function only share one call site (function filters see the first)')
@@ -730,3 +765,40 @@ def r11(ctx):
                       % (top, TMAX - 1))
     if n == 0:
         raise AnalysisBroken('R11: no scan stores conf_active_max')
+
+
+def r12(ctx):
+    prog = ctx.prog
+    f = prog.fn('qb_log_real_va_')
+
+    def is_latch(n):
+        return n.get('k') == 'call' and callee_of(n) == 'qb_atomic_int_compare_and_exchange' and 'in_logger' in estr(n['args'][0])
+    takes = [b for b in f.blocks.values() if b.cond is not None and any(is_latch(n) for n in walk(b.cond))]
+    if not takes:
+        raise AnalysisBroken('qb_log_real_va_: the in_logger latch is not taken in a condition')
+    clears = [ev for ev in f.calls('qb_atomic_int_set') if 'in_logger' in estr(ev.args[0]) and cval(unwrap(ev.args[1])) == 0]
+    if not clears:
+        ctx.viol('R12', 'latch-given-back-on-every-return', f, 'qb_log_real_va_ never clears in_logger: the first log call is the last one delivered')
+        return
+
+    def alloc_failed(ev):
+        for (at, _e) in f.guards(ev):
+            if at.op == '==' and at.rc == 0 and unwrap(at.l).get('k') == 'var':
+                defs, entry = f.reaching_defs(unwrap(at.l)['n'], ev)
+                if defs and not entry and any(d.kind == 'STORE' and callee_of(unwrap(d.rhs)) in ('malloc', 'calloc', 'realloc') for d in defs):
+                    return True
+        return False
+    bad = []
+    for ev in f.returns():
+        # reachable from the function entry without passing a clear, and after the latch was taken (= not the return of the latch test itself)
+        hits, _e, _n = f.search(('entry',), goal=lambda x, ev=ev: x is ev, stop=lambda x: any(x is c for c in clears))
+        if not hits:
+            continue
+        if ev.blk in {t for b in takes for (t, lab) in b.succs} and len(f.blocks[ev.blk].events) <= 1:
+            continue        # the return of the latch test: nothing was taken (or cs == NULL, see below)
+        if alloc_failed(ev):
+            continue
+        bad.append(ev)
+    ctx.check('R12', 'latch-given-back-on-every-return', not bad, bad[0] if bad else clears[0],
+              'every return after the latch was taken clears in_logger (allocation failure excepted)',
+              'qb_log_real_va_ returns with in_logger still set: every later log call of the process finds the latch taken and returns at once - no target gets anything any more')
